@@ -156,5 +156,35 @@ PROPS = {
     },
 }
 
+PROPS["C08"] = {
+    "claimed": True,
+    "technique": "2-safety as a safety contract: two-run self-composition with leakage ghost state on the instrumented real code (CBMC, loops unwound to their public bounds)",
+    "text": "every operand of every if/while/for condition and every non-constant subscript of the real sources passes through an observation "
+            "point (engine/instrument.py: VLK_B / VLK_I, identity by default); the harness runs each function twice with equal public parameters "
+            "(lengths, rounds, mode, offsets, NULL-ness) and independently chosen secrets (keys, schedules, tweaks, data, counters, buffered keystream, "
+            "previous object contents) and proves equal observation at an arbitrary witness position and equal observation count. Complete over secrets; "
+            "round counts symbolic up to MAX; key/tweak lengths by representatives; CTR/parallel call sizes bounded.",
+    "assumptions": ["observation points cover branch conditions and subscripts; unary-* dereferences and the byte offsets inside the READ_/WRITE_WORD macros are "
+                    "not instrumented (their pointers/offsets are formed from parameters, loop indices and constants; audited by reading)",
+                    "what the compilers emit (cmov vs branch, vector code) is NOT decided: source-level property only",
+                    "SIMD CTR back ends and the 256-bit block functions are not covered by a C08 job (their scalar control flow equals the generic CTR loops)",
+                    "bounded: CTR/parallel call sizes <= 40/48/24 bytes, key and tweak lengths by representatives"],
+}
+PROPS["C19"] = {"claimed": False, "reason": "CBMC's C++ front end cannot take the Arduino classes; the mechanical per-run extraction of the portable method bodies to C (DESIGN 5/C19) is not built, and a hand-written C look-alike would be a model, not the code (DESIGN 14.2)"}
+PROPS["C20"] = {
+    "claimed": True,
+    "technique": "CBMC contracts on the tools' real main()/parse_options against a ghost file model (assumed stdio/getopt contracts) and library role contracts",
+    "text": "for EVERY input length (symbolic, unbounded, loop contracts): skinny-ctr writes exactly the bytes it read, chunk by chunk at the file position "
+            "they came from, each after the library's CTR call on exactly that chunk; skinny-ecb / skinny-tweak write the whole blocks of every chunk (trailing "
+            "partial block dropped), transformed in the direction of -d (tweak tool: every block under a freshly set, incremented tweak); files closed, objects "
+            "cleaned up; invalid options exit 1 before the output file is opened.  parse_options returns 1 only with lengths inside the LIBRARY's accepted "
+            "ranges, so every library call in main meets its precondition; parse_hex never writes beyond max_len; increment_tweak is a big-endian +1.",
+    "assumptions": ["ghost file model = assumed contract of fopen/fread/feof/fwrite/fclose for regular files (short read only at end of file); getopt model = any option "
+                    "sequence with arguments of at most 8 characters; strcmp result abstracted",
+                    "'output == the library's transformation of the input' is by composition with C05 (CTR split independence), C01/C04 (block functions) - the tool "
+                    "jobs track WHICH bytes are transformed and written, not their values",
+                    "parse_hex: argument strings bounded to 8 characters (unwinding); termination of the tools not claimed",
+                    "round trip (run twice / -d restores) follows from C05's involution and C03; checked natively by the replayer on real files (family tools)"],
+}
 for i in range(1, 21):
     PROPS.setdefault("C%02d" % i, {"claimed": False, "reason": "not claimed yet: check under construction (see DESIGN.md)"})
